@@ -335,4 +335,35 @@ Section GStackProofs.
     rewrite Epop in Hs. injection Hs as <-. destruct (pop_ok _ _ _ Hh Epop) as (_ & Hp' & Hmin).
     exists x. simpl. repeat split; auto. apply (Permutation_in _ Hp'). left. reflexivity.
   Qed.
+
+  (* a concurrent Peek (one locked scan of the heap array) sees exactly the issued (id, value) pairs that are
+     neither waiting for their insertion nor popped - whatever gaps concurrent pushers have left among the ids *)
+  Theorem gstack_conc_peek ls c id v :
+    crun (@cinit V) ls = Some c ->
+    (scan id (entries (st c)) = Some v
+     <-> In (id, v) (issued c) /\ ~ In (id, v) (pending c) /\ ~ In (id, v) (popped c)).
+  Proof.
+    intros Hr. destruct (gstack_conc_safe ls c Hr) as (_ & Hnd & Hp).
+    assert (Hnd' : NoDup (map fst (pending c ++ popped c ++ entries (st c)))).
+    { eapply Permutation_NoDup; [|exact Hnd]. apply Permutation_map. exact Hp. }
+    assert (HndE : NoDup (map fst (entries (st c)))).
+    { rewrite !map_app in Hnd'. apply NoDup_app_remove_l in Hnd'. apply NoDup_app_remove_l in Hnd'. exact Hnd'. }
+    assert (Hsplit : forall {A} (a b : list A) x, NoDup (a ++ b) -> In x a -> In x b -> False).
+    { intros A a. induction a as [|h t IHa]; intros b x Hn Ha Hb; [contradiction|].
+      simpl in Hn. inversion Hn as [|? ? Hnh Hnt]; subst. destruct Ha as [->|Ha].
+      - apply Hnh. rewrite in_app_iff. right. exact Hb.
+      - exact (IHa b x Hnt Ha Hb). }
+    assert (Hdisj : forall w, In (id, w) (entries (st c)) ->
+                    ~ In (id, v) (pending c) /\ ~ In (id, v) (popped c)).
+    { intros w Hw. rewrite !map_app in Hnd'. apply (in_map fst) in Hw. simpl in Hw. split; intros Hin.
+      - apply (in_map fst) in Hin. simpl in Hin.
+        apply (Hsplit _ _ _ id Hnd' Hin). rewrite in_app_iff. right. exact Hw.
+      - apply (in_map fst) in Hin. simpl in Hin. apply NoDup_app_remove_l in Hnd'.
+        exact (Hsplit _ _ _ id Hnd' Hin Hw). }
+    rewrite (scan_In id _ v HndE). split.
+    - intros Hin. split; [apply (Permutation_in _ (Permutation_sym Hp)); rewrite !in_app_iff; auto|].
+      exact (Hdisj v Hin).
+    - intros (Hi & Hnp & Hnq). apply (Permutation_in _ Hp) in Hi. rewrite !in_app_iff in Hi.
+      destruct Hi as [Hi|[Hi|Hi]]; [contradiction|contradiction|exact Hi].
+  Qed.
 End GStackProofs.
